@@ -393,7 +393,10 @@ def extract_fn(item, opts, blocks, rewrites_log, as_stub=False):
                                         if d == 0: break
                                     k2 -= 1
                                 rs = btoks[bci[k2]][2]
-                            elif btoks[bci[pr]][0] == 'id': rs = btoks[bci[pr]][2]
+                            elif btoks[bci[pr]][0] == 'id':
+                                # receiver is a place expression `a.b.c`: walk back over the field chain
+                                while pr >= 2 and btoks[bci[pr - 1]][1] == '.' and btoks[bci[pr - 2]][0] == 'id': pr -= 2
+                                rs = btoks[bci[pr]][2]
                             else: raise GenErr('%s: R13 receiver of .abs() not recognised' % item.name)
                             bed.append((rs, rs, 'verif_f64_abs(')); bed.append((btoks[bci[bi]][2], btoks[bci[bi + 3]][3], ')'))
                     body2 = apply_edits(btxt, bed)
